@@ -36,7 +36,7 @@ def fh_cmd(v):
 
 
 class Spec:
-    def __init__(self, name, extra, ntune, nfh, assign, tier, trim=(), fns=None, fhset=None):
+    def __init__(self, name, extra, ntune, nfh, assign, tier, trim=(), fns=None, fhset=None, rxonly=()):
         self.name = "C02/" + name
         self.defs = trxmodel.std_config(extra)
         self.assign = assign        # list of (ver, muted) per transceiver
@@ -47,6 +47,10 @@ class Spec:
             self.alpha += [("on", i), ("off", i)]
             self.alpha += [("tune", i, k) for k in range(1 if small else ntune)]
             self.alpha += [("fh", i, k) for k in ((fhset or range(nfh))[:1] if small else (fhset or range(nfh)))]
+            if i in rxonly:
+                # only the receive frequency: a child switched on through its parent listens without ever
+                # having been given a transmit frequency
+                self.alpha.append(("rxtune", i, 0))
 
     def build(self):
         W = AppWorld(self.defs)
@@ -71,6 +75,8 @@ class Spec:
         if k == "tune":
             rx, tx = TUNES[ev[2]]
             return W.ctrl(ev[1], "RXTUNE %d" % rx) + W.ctrl(ev[1], "TXTUNE %d" % tx)
+        if k == "rxtune":
+            return W.ctrl(ev[1], "RXTUNE %d" % TUNES[ev[2]][0])
         if k == "fh":
             return W.ctrl(ev[1], fh_cmd(ev[2]))
         raise ValueError(ev)
@@ -121,8 +127,9 @@ class Spec:
         # transceiver remembers about "the current frame" must not outlive its hopping configuration)
         for i in [i for i, t in enumerate(m.trx) if t.running and t.ready][:2]:
             # (the last step also changes the number of channels from 3 to 5, i.e. the width of the T' mask)
-            for k, fhv in enumerate((0, 2, 1, 4)):
-                v = W.ctrl(i, fh_cmd(fhv))
+            for k, fhv in enumerate((0, 2, 1, 4, "refused")):
+                # (last: a SETFH that is refused - HSN 64 - leaves the configuration in force untouched)
+                v = W.ctrl(i, fh_cmd(fhv) if fhv != "refused" else "SETFH 64 0 %d %d %d %d" % (F1, F2, F2, F1))
                 if v:
                     return [(v[0][0] + "-probe", "re-SETFH of %s: %s" % (m.trx[i].d.name, v[0][1]))]
                 for j, t in enumerate(m.trx):
@@ -139,7 +146,7 @@ class Spec:
                         deliveries += len(W.last_out)
                         if v:
                             return [(c + "-probe", "after re-SETFH #%d (%s) of %s without power cycle, sender %s fn=%d again: %s"
-                                     % (k + 1, fh_cmd(fhv), m.trx[i].d.name, t.d.name, fn, msg)) for c, msg in v]
+                                     % (k + 1, fh_cmd(fhv) if fhv != "refused" else "SETFH 64 ... (refused)", m.trx[i].d.name, t.d.name, fn, msg)) for c, msg in v]
         W.outcome = deliveries
         return vs
 
@@ -150,11 +157,11 @@ def specs(tier):
     if tier == "quick":
         out.append(Spec("3trx/v0", child, 2, 2, [(0, 0)] * 3, tier))
         out.append(Spec("3trx/mixed", child, 2, 2, [(1, 0), (0, 0), (1, 1)], tier, trim=(2,)))
-        out.append(Spec("3trx/first-rx-muted", child, 1, 1, [(0, 1), (0, 0), (0, 0)], tier))
+        out.append(Spec("3trx/first-rx-muted", child, 1, 1, [(0, 1), (0, 0), (0, 0)], tier, rxonly=(2,)))
         out.append(Spec("2trx/single-channel-ma", [], 2, 2, [(0, 0), (0, 0)], tier, fhset=(5, 0)))
     else:
         out.append(Spec("2trx/single-channel-ma", [], 3, 3, [(0, 0), (1, 0)], tier, fhset=(5, 0, 1)))
-        out.append(Spec("3trx/first-rx-muted", child, 2, 2, [(0, 1), (0, 0), (0, 0)], tier))
+        out.append(Spec("3trx/first-rx-muted", child, 2, 2, [(0, 1), (0, 0), (0, 0)], tier, rxonly=(2,)))
         out.append(Spec("3trx/first-rx-muted-v1", child, 1, 2, [(1, 1), (1, 0), (1, 0)], tier))
         out.append(Spec("3trx/v0", child, 2, 4, [(0, 0)] * 3, tier))
         out.append(Spec("3trx/v1", child, 2, 2, [(1, 0)] * 3, tier))
